@@ -364,6 +364,67 @@ fn views(out: &mut Out, rng: &mut Rng, thorough: bool) {
 				}
 			}
 		}
+		// a handle opened at an EARLIER size over the longer backend, rewound to a position at or
+		// beyond its own size (the backend still holds more), then appended to: the result is the
+		// construction over the elements kept plus the new ones
+		if n >= 4 {
+			let mut fb = VecBackend::<Elem>::new();
+			let mut fsize = 0u64;
+			out.raw("pmmr new");
+			for e in &elems {
+				let mut p = PMMR::at(&mut fb, fsize);
+				let res = p.push(e);
+				fsize = p.size;
+				out.line(&format!("pmmr push {}", hex(&e.0)), &match res { Ok(_) => format!("{} {}", fsize, root_str(p.root())), Err(_) => "err".to_string() });
+			}
+			let open_leaves = rng.range(1, n - 2);
+			let keep = rng.range(open_leaves, n - 1);
+			let open_at = pmmr::insertion_to_pmmr_index(open_leaves);
+			let mut target = pmmr::insertion_to_pmmr_index(keep);
+			if rng.chance(1, 3) && target > open_at + 1 {
+				target -= 1;
+			}
+			{
+				let mut p = PMMR::at(&mut fb, open_at);
+				let r = p.rewind(target, &croaring::Bitmap::new());
+				fsize = p.size;
+				out.line(&format!("pmmr prewind {}", target), &if r.is_ok() { fsize.to_string() } else { "err".into() });
+			}
+			let mut fel: Vec<Elem> = elems[..pmmr::n_leaves(fsize) as usize].to_vec();
+			for _ in 0..3 {
+				let e = Elem(rng.bytes(8));
+				let mut p = PMMR::at(&mut fb, fsize);
+				let res = p.push(&e);
+				fsize = p.size;
+				out.line(&format!("pmmr push {}", hex(&e.0)), &match res { Ok(_) => format!("{} {}", fsize, root_str(p.root())), Err(_) => "err".to_string() });
+				fel.push(e);
+			}
+			let fp = PMMR::at(&mut fb, fsize);
+			out.line(&format!("pmmr vroot {}", fsize), &root_str(fp.root()));
+			out.line(&format!("pmmr vpeaks {}", fsize), &hashes(&fp.peaks()));
+			if let Ok(root) = fp.root() {
+				for (i, e) in fel.iter().enumerate() {
+					let pos = pmmr::insertion_to_pmmr_index(i as u64);
+					let ok = match proof_line(out, &fp, fsize, pos) {
+						Some(pr) => pr.verify(root, e, pos).is_ok() && fp.get_data(pos).as_ref() == Some(e),
+						None => false,
+					};
+					if !ok {
+						out.raw(&format!("#ORACLE-FAIL C07 after a rewind to {} through a handle opened at size {} and three appends, leaf {} has no verifying proof or not its element", target, open_at, pos));
+					}
+				}
+			}
+			// back to the history of this size for the sections below (the driver follows the lines)
+			let mut rb = VecBackend::<Elem>::new();
+			let mut rsize = 0u64;
+			out.raw("pmmr new");
+			for e in &elems {
+				let mut p = PMMR::at(&mut rb, rsize);
+				let res = p.push(e);
+				rsize = p.size;
+				out.line(&format!("pmmr push {}", hex(&e.0)), &match res { Ok(_) => format!("{} {}", rsize, root_str(p.root())), Err(_) => "err".to_string() });
+			}
+		}
 		// the same elements over a hash-only backend (no element data kept): size, root, peaks and
 		// the proof of every leaf are those of the full backend
 		{
